@@ -18,6 +18,7 @@ package core
 
 import (
 	"fmt"
+	"strings"
 	"sync"
 )
 
@@ -321,6 +322,8 @@ type RuleDone struct {
 }
 
 func OneShotSchedule(schedule string) bool {
+	// (The cron services trim the schedule before they look at it.)
+	schedule = strings.TrimSpace(schedule)
 	if 0 == len(schedule) {
 		return false
 	}
